@@ -328,6 +328,8 @@ func c05(p *core.Program, r *core.Report) {
 		r.Check(ok, r2, short(fn)+"/parse", p.Pos(fn.Pos()), true, "strconv.ParseFloat(s, 64)", "numbers are not parsed with strconv.ParseFloat(s, 64)")
 	}
 
+	spellingRule(p, r, "spelling-variants", g)
+
 	// ---- EMPTY members / offsets in the encoder
 	only := func(o *types.Func) bool {
 		return o.Pkg().Path() == mod+"/"+wktRel && strings.HasPrefix(o.Name(), "writeFlatCoords")
